@@ -143,8 +143,10 @@ def header_mapping(ctx, rid, names):
                 ctx.check(rid, okrow, key(f, "header-map|" + hn), site(f, text="header " + hn), "header %s leads to environ stores %s, required exactly one store %s" % (hn, sorted(map(str, got)), (wkey, wval)),
                           "%s <- value" % wkey)
                 wloc = {"HOST": 1, "SCRIPT_NAME": 1}.get(hn, 0)
-                ctx.check(rid, all(len(l_) == wloc for l_ in locs), key(f, "header-locals|" + hn), site(f, text="header " + hn),
-                          "header %s is also remembered in the local(s) %s of create(): only the exact names HOST and SCRIPT_NAME (which parse_headers lets through for trusted peers only) may steer "
+                # (whether a SCRIPT_NAME header steers may further depend on the message's trust state, which this table leaves
+                # open: C08.R4's pipeline decides that; here: no other header ever reaches a local, these two can)
+                ctx.check(rid, all(len(l_) <= wloc for l_ in locs) and (not wloc or any(len(l_) == wloc for l_ in locs)), key(f, "header-locals|" + hn), site(f, text="header " + hn),
+                          "header %s is also remembered in the local(s) %s of create(): only the exact names HOST and SCRIPT_NAME may steer "
                           "SERVER_NAME / SCRIPT_NAME" % (hn, sorted(set(x for l_ in locs for x in l_))), "%d local(s)" % wloc)
             else:
                 ctx.check(rid, okrow, key(f, "repeat-join|%s|%r" % (hn, prior)), site(f, text="header %s repeated" % hn),
